@@ -368,6 +368,7 @@ func runC32(c *Ctx) {
 		}
 	}
 	c.Floor("siblings", 10)
+	receiveAccountedRule(c)
 }
 
 // ---- C33 ----
@@ -577,4 +578,186 @@ func runC33(c *Ctx) {
 		}
 	}
 	c.Check(bad == "" && len(roots) > 20, "passive-tracers", "tracing", token.NoPos, "no tracing function calls a simulation-mutating API ("+itoa(len(roots))+" functions)", "the tracing package drives the simulation: "+bad)
+}
+
+// ---- every started req_in is completed or recorded ----
+
+func isTracingCall(call ssa.CallInstruction, names ...string) bool {
+	sc := call.Common().StaticCallee()
+	if sc == nil || sc.Pkg == nil || sc.Pkg.Pkg.Path() != ModPath+"/tracing" {
+		return false
+	}
+	for _, n := range names {
+		if sc.Name() == n {
+			return true
+		}
+	}
+	return false
+}
+
+// accountsFor reports whether instruction in (inside fn) completes the task of
+// value v or records v (or something derived from it) in component state.
+func accountsFor(p *Program, fn *ssa.Function, in ssa.Instruction, v ssa.Value, depth int) bool {
+	derives := func(x ssa.Value) bool {
+		if x == nil {
+			return false
+		}
+		if x == v {
+			return true
+		}
+		return DataSlice(fn, x)[v]
+	}
+	switch x := in.(type) {
+	case *ssa.Store:
+		return stateRooted(x.Addr) && derives(x.Val)
+	case *ssa.MapUpdate:
+		return derives(x.Value) || derives(x.Key)
+	case ssa.CallInstruction:
+		if isTracingCall(x, "TraceReqComplete", "EndTask") {
+			return true
+		}
+		name, pkg := calleeNamePkg(x)
+		if (putNames[name] || name == "AcceptWithDelay") && strings.HasSuffix(pkg, "/queueing") { // recorded in a queue of the component (forwarding a derived message does not record this one)
+			for _, a := range x.Common().Args {
+				if derives(a) {
+					return true
+				}
+			}
+		}
+		sc := x.Common().StaticCallee()
+		if sc == nil || depth > 2 || len(origin(sc).Blocks) == 0 || pkgOfFn(sc) != pkgOfFn(fn) {
+			return false
+		}
+		sc = origin(sc)
+		for i, a := range x.Common().Args {
+			if !derives(a) || i >= len(sc.Params) {
+				continue
+			}
+			pv := sc.Params[i]
+			for _, b := range sc.Blocks {
+				for _, in2 := range b.Instrs {
+					if accountsFor(p, sc, in2, pv, depth+1) {
+						return true
+					}
+				}
+			}
+		}
+		// helpers that end the task by ID (traceReqComplete(recvTaskID, reqID))
+		for g := range p.ModCG().Reach([]*ssa.Function{sc}, func(h *ssa.Function) bool { return pkgOfFn(h) == pkgOfFn(fn) }) {
+			for _, b := range g.Blocks {
+				for _, in2 := range b.Instrs {
+					if c2, ok := in2.(ssa.CallInstruction); ok && isTracingCall(c2, "TraceReqComplete") {
+						return true
+					}
+				}
+			}
+		}
+	}
+	return false
+}
+
+func receiveAccountedRule(c *Ctx) {
+	p := c.P
+	n := 0
+	for _, fn := range p.SrcFuncs(func(pp string) bool { return libComponentPkg(pp) }) {
+		loops := loopsOf(fn)
+		for _, b := range fn.Blocks {
+			for i, in := range b.Instrs {
+				call, ok := in.(ssa.CallInstruction)
+				if !ok || !isTracingCall(call, "TraceReqReceive") {
+					continue
+				}
+				n++
+				// the message and the values it is a copy of (interface conversions, type
+				// assertions of the retrieved value, loads of the local that holds it)
+				var alt []ssa.Value
+				seenAlt := map[ssa.Value]bool{}
+				var chain func(x ssa.Value)
+				chain = func(x ssa.Value) {
+					if x == nil || seenAlt[x] {
+						return
+					}
+					seenAlt[x] = true
+					alt = append(alt, x)
+					switch y := x.(type) {
+					case *ssa.MakeInterface:
+						chain(y.X)
+					case *ssa.ChangeInterface:
+						chain(y.X)
+					case *ssa.TypeAssert:
+						chain(y.X)
+					case *ssa.Extract:
+						if ta, isTA := y.Tuple.(*ssa.TypeAssert); isTA {
+							chain(ta)
+							chain(ta.X)
+						}
+					case *ssa.UnOp:
+						if al, isAl := y.X.(*ssa.Alloc); isAl && y.Op == token.MUL {
+							for _, ref := range *al.Referrers() {
+								if st, isSt := ref.(*ssa.Store); isSt && st.Addr == ssa.Value(al) {
+									chain(st.Val)
+								}
+								if ld, isLd := ref.(*ssa.UnOp); isLd && ld.Op == token.MUL {
+									if !seenAlt[ld] {
+										seenAlt[ld] = true
+										alt = append(alt, ld)
+									}
+								}
+							}
+						}
+					}
+				}
+				chain(call.Common().Args[1])
+				acc := func(x ssa.Instruction) bool {
+					for _, a := range alt {
+						if accountsFor(p, fn, x, a, 0) {
+							return true
+						}
+					}
+					return false
+				}
+				// already recorded before the start (record-then-trace order)?
+				pre := false
+				for _, bb := range fn.Blocks {
+					for _, x := range bb.Instrs {
+						if x != in && InstrDominates(x, in) && acc(x) {
+							pre = true
+						}
+					}
+				}
+				l := innermost(loops, b)
+				escaped := ""
+				if !pre {
+					seen := map[*ssa.BasicBlock]bool{}
+					var walk func(blk *ssa.BasicBlock, from int)
+					walk = func(blk *ssa.BasicBlock, from int) {
+						for j := from; j < len(blk.Instrs); j++ {
+							x := blk.Instrs[j]
+							if acc(x) {
+								return
+							}
+							if _, isRet := x.(*ssa.Return); isRet {
+								escaped = "the function returns at " + p.Rel(x.Pos())
+								return
+							}
+						}
+						for _, s := range blk.Succs {
+							if l != nil && s == l.header {
+								escaped = "the loop moves on to the next message"
+								continue
+							}
+							if !seen[s] {
+								seen[s] = true
+								walk(s, 0)
+							}
+						}
+					}
+					walk(b, i+1)
+				}
+				c.Check(escaped == "", "receive-accounted", SSAFuncKey(fn)+"@TraceReqReceive", in.Pos(), "the started req_in is completed or its message recorded on every path",
+					"a receiver-side task is started for a message, but on some path ("+escaped+") the task is neither completed nor the message recorded in component state for later completion: the task stays started-never-ended")
+			}
+		}
+	}
+	c.Check(n >= 12, "receive-accounted", "instances", token.NoPos, "TraceReqReceive sites found ("+itoa(n)+")", "only "+itoa(n)+" TraceReqReceive sites found")
 }
